@@ -157,7 +157,7 @@ STREAMS = {"score": (stream_score, 420, 6000), "registry": (stream_registry, 13,
 
 
 def main(pid="C01", streams=STREAMS, rule=None):
-    chk = Check(pid, props_files=[f"Props/{pid}.v"] + ([f"Props/{pid}gen.v"] if pid in ("C01", "C02") else []))
+    chk = Check(pid, props_files=[f"Props/{pid}.v"] + ([f"Props/{pid}gen.v", f"Props/{pid}geom.v"] if pid in ("C01", "C02") else []))
     chk.build()
     chk.proofs()
     if chk.replay_path:
